@@ -761,14 +761,21 @@ def self_test(pid, scratch):
     # the oracles of the witness families must not flag the unchanged tree
     try:
         import witness
-        seen_f, flagged, tried = set(), [], 0
-        for key, fam in list(witness.CANNED.items()) + list(witness.GENERATED.items()):
-            ident = id(fam) if callable(fam) else key
-            if ident in seen_f:
-                continue
-            seen_f.add(ident)
+        flagged, tried = [], 0
+        gens = {}
+        for key in list(witness.GENERATED) + list(witness.RULE_SAMPLE_KEYS):
+            for g in witness.generators_for(key):
+                gens.setdefault(g.__name__, g)
+        todo = [(key, None) for key in witness.CANNED] + [('SELFTEST.' + nm, g) for nm, g in sorted(gens.items())]
+        for key, g in todo:
+            if g is not None:
+                witness.GENERATED[key] = g
             pf = dict(id='selftest', clause=key, kind='selftest')
-            witness.find(pid, pf, REPO, scratch)
+            try:
+                witness.find(pid, pf, REPO, scratch)
+            finally:
+                if g is not None:
+                    witness.GENERATED.pop(key, None)
             tried += (pf.get('witness_search') or {}).get('requests', 0)
             if pf.get('replayed'):
                 flagged.append((key, pf['witness']['public_api_input']))
